@@ -7,7 +7,7 @@ HERE = os.path.dirname(os.path.abspath(__file__))
 # id -> (technique, level text, level note, design ref)
 CLAIMS = {
  "C09": ("typestate (must-pass-through) over go/ssa CFG + value provenance",
-         "Decides the mechanism the property attributes atomicity to: every device write of gpt.Table.Write is classified by provenance and must occur in the order backup array, backup header, primary array, primary header, each followed by a call reaching Sync() whose error is propagated; in the reader every success return is dominated by the header-CRC and entries-CRC equality edges, content errors are wrapped in the type gpt.Read tests, and on that edge the backup at (size/lbs)-1 is read. The behaviour follows from these premises by the written argument in the evidence; the run-time behaviour itself is not executed or model-checked.",
+         "Decides the mechanism the property attributes atomicity to: every device write of gpt.Table.Write is classified by provenance and must occur in the order backup array, backup header, primary array, primary header, each followed by a call reaching Sync() whose error is propagated; in the reader every success return is dominated by the header-CRC and entries-CRC equality edges, content errors are wrapped in the type gpt.Read tests, and on that edge the backup at (size/lbs)-1 is read and, once it validated, returned (no error return lies behind its success edge). The behaviour follows from these premises by the written argument in the evidence; the run-time behaviour itself is not executed or model-checked.",
          "Assumes sector-atomic writes, Sync() as a durability barrier, CRC-32 collision freedom, go/ssa + CHA soundness. Path-insensitive: a guard that is infeasible at run time is not seen.",
          "DESIGN.md §4 C09"),
  "C11": ("call-graph reachability (CHA) with constant-actual folding + provenance of write receivers + dominance of gate tests",
@@ -23,27 +23,27 @@ CLAIMS = {
          "go/ssa provenance is field-based and flow-insensitive across functions; host (workspace) files are told from the device by provenance (os.Open* vs backend values).",
          "DESIGN.md §4 C03"),
  "C13": ("type-width check on the def-use chains of Start/Size/End + dominance of size tests + provenance of slice bounds",
-         "Decides structural necessary conditions for both part.Partition implementations: no sub-64-bit multiply/add/shift or narrowing on values derived from Start/Size/End in WriteContents/ReadContents/GetStart/GetSize; the size test dominates the device write and success requires total == size; the bytes handed to the output writer are clamped by the remaining size (or chunk and sector size are the same constant); every chunk read from the source is handled and the caller's reader is passed through unwrapped; verifyBlockCopy turns digest inequality into an error, covers the whole expected size (no floor division without the remainder) and CopyPartitionRaw propagates read/write/verify errors. Does not decide which bytes are moved.",
+         "Decides structural necessary conditions for both part.Partition implementations: no sub-64-bit multiply/add/shift or narrowing on values derived from Start/Size/End in WriteContents/ReadContents/GetStart/GetSize; the size test dominates the device write and success requires total == size; the bytes handed to the output writer are clamped by the remaining size (or chunk and sector size are the same constant); every chunk read from the source is handled and the caller's reader is passed through unwrapped; the size test compares the byte total itself (no division, shift or mask on that side) and the running total advances only by bytes that went through the device write; verifyBlockCopy turns digest inequality into an error, covers the whole expected size (no floor division without the remainder) and CopyPartitionRaw propagates read/write/verify errors. Does not decide which bytes are moved.",
          "Path-insensitive; the mbr clamp exemption relies on deep provenance showing chunk length and sector multiplier are the same constant.",
          "DESIGN.md §4 C13"),
  "C10": ("SSA analysis of the whence switch, dominance of closed/negative guards, per-addend provenance (data + selecting-condition dependence) of the returned count",
-         "Decides structural necessary conditions for all four filesystem.File implementations, cross-checked as siblings: Seek arms are offset / cursor+offset / size+offset with no subtraction; a negative target is rejected before the cursor store; Close stores a sentinel that Read and Seek test before any other field access; every addend of Read's returned count and every placement into the caller's buffer depends on both size and cursor (so it cannot exceed what remains by construction of a min/clamp); io.EOF is selected by a size/cursor comparison and the cursor advances by the count's addends; in ext4's extent loops the device offset of each transfer depends on the advancing cursor. Does not decide which bytes are returned.",
+         "Decides structural necessary conditions for all four filesystem.File implementations, cross-checked as siblings: Seek arms are offset / cursor+offset / size+offset with no subtraction; a negative target is rejected before the cursor store; Close stores a sentinel that Read and Seek test before any other field access; every addend of Read's returned count and every placement into the caller's buffer depends on both size and cursor (so it cannot exceed what remains by construction of a min/clamp); io.EOF is selected by a size/cursor comparison that precedes every failure decided from the cursor, and the cursor advances by the count's addends; in ext4's extent loops the device offset of each transfer depends on the advancing cursor. Does not decide which bytes are returned.",
          "Dependence is data flow plus the conditions selecting phi values; a clamp that is present but arithmetically wrong (e.g. off by one) is not seen.",
          "DESIGN.md §4 C10"),
  "C01": ("typestate over go/ssa CFG with callee summaries (dirty directory => write-back), provenance of released chain heads, never-after on the out-of-space return",
-         "Decides structural necessary conditions of the FAT reference-model property: Remove/Rename-over/O_TRUNC hand the dropped entry's first cluster to a function that marks clusters unused; in all exported FAT FileSystem/File mutators every change of a directory's entry list or of an existing entry's fields is followed on every success path by the write of that same directory; the allocator's out-of-space return precedes any FAT mutation; the allocator's free-cluster scan starts at a constant or at a hint that every cluster-releasing function rewinds; writeDirectoryEntries writes every cluster of the directory's chain. Does not decide equality of listings/contents with a reference model, name aliasing or cluster arithmetic.",
+         "Decides structural necessary conditions of the FAT reference-model property: Remove/Rename-over/O_TRUNC hand the dropped entry's first cluster to a function that marks clusters unused; in all exported FAT FileSystem/File mutators every change of a directory's entry list or of an existing entry's fields is followed on every success path by the write of that same directory; the allocator's out-of-space return precedes any FAT mutation; the allocator's free-cluster scan starts at a constant or at a hint that every cluster-releasing function rewinds (a start taken from anything else - the end of the chain being extended - is a violation unless a second scan starts at a constant); writeDirectoryEntries writes every cluster of the directory's chain. Does not decide equality of listings/contents with a reference model, name aliasing or cluster arithmetic.",
          "Path-insensitive; directory identity is by SSA value within a function with one level of helper parameters.",
          "DESIGN.md §4 C01"),
  "C08": ("typestate over go/ssa CFG (FAT dirty => WriteFat, link => end-of-chain), SSA value identity of mirrored buffers, store/dominance checks for hooks, encoder/decoder layout agreement",
-         "Decides structural necessary conditions of on-disk FAT soundness: secondary FAT, backup boot sector and backup FSInfo are written from the very same buffer as the primary; every SetCluster is followed by WriteFat() (error propagated) before success; both fat32 constructors install WriteBootSectorFn/AfterWriteFAT and WriteFat invokes the hook; dropped entries' chains are released; allocator links are terminated with EOCMarker() and freed clusters get UnusedMarker(). Geometry formulas (FAT32 maxCluster overrun) and chain well-formedness over histories are not covered.",
+         "Decides structural necessary conditions of on-disk FAT soundness: secondary FAT, backup boot sector and backup FSInfo are written from the very same buffer as the primary; every SetCluster is followed by WriteFat() (error propagated) before success; both fat32 constructors install WriteBootSectorFn/AfterWriteFAT and WriteFat invokes the hook; dropped entries' chains are released; allocator links are terminated with EOCMarker() and freed clusters get UnusedMarker(); a BPB sector number becomes a byte offset only through the volume's own sector size (never a literal 512/4096, also not through a helper's fallback); the three FAT encoders start from a buffer allocated or cleared by the call; every error return behind a successful fresh allocation (mkFile/mkSubdir) passes a cluster release (one defect repaired: a refused create or mkdir leaked a cluster each time). Geometry formulas (FAT32 maxCluster overrun) and chain well-formedness over histories are not covered.",
          "Path-insensitive; mirror sites are recognised by 'secondary'/'backup' in the field or accessor the offset derives from.",
          "DESIGN.md §4 C08"),
  "C12": ("dominance/edge analysis of probe results, reachability of signature comparisons with error propagation, interval extraction of cluster-count thresholds",
-         "Decides structural necessary conditions of recognition: GPT before MBR with each table returned on its own nil-error edge; GetFilesystem probes every FileSystem implementer and returns a probe's result exactly (and at once) on its nil-error edge, otherwise an error; the readers of fat12/fat32/iso9660/squashfs/ext4 compare decoded bytes with the format signature, reject on mismatch and the rejection is propagated to Read; FAT12/FAT16 Create and Read accept the same, adjacent, disjoint cluster-count intervals (4085, 65525) and round the cluster count the same way; no rejection in the six readers depends on the start offset. fat16.Read has no signature test today and is exempted with that reason. Does not decide label/content round trips.",
+         "Decides structural necessary conditions of recognition: GPT before MBR with each table returned on its own nil-error edge; GetFilesystem probes every FileSystem implementer and returns a probe's result exactly (and at once) on its nil-error edge, otherwise an error; the readers of fat12/fat32/iso9660/squashfs/ext4 compare decoded bytes with the format signature, reject on mismatch and the rejection is propagated to Read; FAT12/FAT16 Create and Read accept the same, adjacent, disjoint cluster-count intervals (4085, 65525) and round the cluster count the same way, and every FAT-type threshold is applied to a cluster count whose sector total subtracts the FAT area; Disk.CreateFilesystem zeroes the head of the target range (at least 34816 bytes: FAT boot sector, ext4 superblock, first ISO9660 descriptor, squashfs superblock) on every feasible path to a filesystem Create, so that the signature of an earlier filesystem cannot be recognised afterwards (one defect repaired: FAT16 then ext4 on one range was reported as FAT16); no rejection in the six readers depends on the start offset. fat16.Read has no signature test today and is exempted with that reason. Does not decide label/content round trips.",
          "Signature constants are specification facts held in the checker. Path-insensitive.",
          "DESIGN.md §4 C12"),
  "C16": ("error-flow check per call site + condition-to-error-return checks on the compare closures + SSA identity of copied buffers",
-         "Decides structural necessary conditions in package sync: no error from the source, destination, opened files or io.* is dropped in the copy (Chtimes/Close are the listed best-effort exceptions); each difference kind (missing path, kind, size, content, extra path, read-count, byte mismatch) controls an error return; copy and both compare walks consult the same exclusion table (also through helpers), index it by the entry's own name only and never use it other than by exact lookup; bytes delivered together with io.EOF are written before the copy can succeed; directories are created and recursed into, files copied from the very bytes read, short writes are errors. Does not decide tree equality at run time.",
+         "Decides structural necessary conditions in package sync: no error from the source, destination, opened files or io.* is dropped in the copy (Chtimes/Close are the listed best-effort exceptions); each difference kind (missing path, kind, size, content, extra path, read-count, byte mismatch) controls an error return; copy and both compare walks consult the same exclusion table (also through helpers), index it by the entry's own name only and never use it other than by exact lookup; bytes delivered together with io.EOF are written before the copy can succeed and are compared before compareFileContents can answer equal (the bytes.Equal call dominates every nil return reachable from the Reads); fs.SkipDir is returned only for directories; directories are created and recursed into, files copied from the very bytes read, short writes are errors. Does not decide tree equality at run time.",
          "Path-insensitive; recognises the package's current idioms (fs.WalkDir closures, bytes.Equal on [0:n) windows).",
          "DESIGN.md §4 C16"),
  "C17": ("lockset dataflow (entry locksets of helpers by intersection over call sites), lock-order and reachability analysis of fetch closures, freshness analysis of stores in reader-reachable functions",
@@ -51,15 +51,15 @@ CLAIMS = {
          "Assumes the backend's ReadAt and third-party decompressors are safe for concurrent use; freshness is decided per allocation site (no pointer analysis).",
          "DESIGN.md §4 C17"),
  "C15": ("taint of device-derived values (go/ssa, field-based, interprocedural) x dominating-comparison guards x type width, plus CRC must-pass-through",
-         "Decides structural necessary conditions over the 26 functions reachable from partition.Read: every success return of the CRC-computing readers lies behind the CRC equality edge over the decoded bytes; every device-derived value reaching a make length, divisor, slice bound, index or the step of a slice-shrinking loop is bounded by a dominating comparison (directly, through its operands, through the validation at the store of the field it is loaded from, or - for lengths only - by a type of at most 16 bits). Loop counters compared with a device-derived bound inherit its taint. A loop whose every exit depends on a device read cannot return to that read after an error without progress. Does not prove termination or panic-freedom in general: untainted indices and arithmetic overflow inside guarded ranges are out of scope.",
+         "Decides structural necessary conditions over the 26 functions reachable from partition.Read: every success return of the CRC-computing readers lies behind the CRC equality edge over the decoded bytes; every device-derived value reaching a make length, divisor, slice bound, index or the step of a slice-shrinking loop is bounded by a dominating comparison (directly, through its operands, through the validation at the store of the field it is loaded from, or - for lengths only - by a type of at most 16 bits). Loop counters compared with a device-derived bound inherit its taint. A comparison on a value computed from the bounded one counts only if that computation is monotone in it and cannot wrap in its integer type (a 32-bit product of two header fields bounds neither factor). A loop whose every exit depends on a device read cannot return to that read after an error without progress. A pointer returned by an in-package decoder together with an error is dereferenced only where the error is known to be nil. Does not prove termination or panic-freedom in general: untainted indices and arithmetic overflow inside guarded ranges are out of scope.",
          "Taint is flow-insensitive across functions and field-based; a guard is a comparison with an untainted value or len() on the bounding edge - whether the constant is small enough is not judged.",
          "DESIGN.md §4 C15"),
  "C18": ("taint of device-derived values x dominating guards x value-range width, over the ~450 functions reachable (with constant folding of read-only flags) from the six readers; checksum-verified decoders are not taint sources under the property's single-field corruption model",
-         "Decides structural necessary conditions: a device-derived make length whose range exceeds 16 MiB is bounded by a dominating comparison (on it, on a value computed from it, on its operands, at the store of the field it is loaded from, or by a validator call); every device-derived divisor is proven non-zero; slice-shrinking loop steps are proven positive; FAT cluster-chain walks carry a link-count bound; read loops whose only exits depend on the read cannot retry forever; library allocators (slices.Grow, bytes.Repeat, ...) are allocation sinks. Five allocation sites (iso9660 x4, squashfs) violate the rule today and are listed as known findings with the corrupted field that triggers each; nine defects were repaired. Slice/index panics, decompression bombs and time bounds are not covered.",
+         "Decides structural necessary conditions: a device-derived make length whose range exceeds 16 MiB is bounded by a dominating comparison (on it, on a value computed from it, on its operands, at the store of the field it is loaded from, or by a validator call); every device-derived divisor is proven non-zero; slice-shrinking loop steps are proven positive; FAT cluster-chain walks carry a link-count bound; read loops whose only exits depend on the read cannot retry forever; library allocators (slices.Grow, bytes.Repeat, ...) are allocation sinks; every device-derived index and every device-derived slice bound is bounded (dominating comparison with len() or a bounded value, min/clamp, type width below the proven minimum length, append discipline for slices the function grows itself), constant bounds on buffers of device-derived length need a proven minimum length, and decoder results are dereferenced only where the decoder's error is nil. Five allocation sites (iso9660 x4, squashfs) violate the allocation rule and are listed as known findings with the corrupted field that triggers each; seven slice sites whose bound is relational are trusted with a written reason (listed in the evidence); more than forty reader defects (panics, endless walks, oversized reads) were repaired in /repo while the rules were built. Decompression bombs and time bounds are not covered.",
          "Whether a bounding constant is small enough is not judged (only that a bound exists); taint is field-based and flow-insensitive across functions.",
          "DESIGN.md §4 C18"),
  "C02": ("byte-layout extraction (abstract interpretation of encoder/decoder over go/ssa: field x significance x mask per byte) + ordering of CRC computation against stores + width check on geometry conversions",
-         "Decides structural necessary conditions of the GPT/MBR round trip: for the GPT header, GPT entry and MBR entry every byte the parser maps to a field is written by the encoder from the same field with the same significance (and vice versa); the header CRC is computed over [0:92] after every other store into that range and stored at [16:20], the reader verifies the same range, the array CRC is computed from the array encoder's output; narrowing conversions of geometry into on-disk fields are range-tested or saturated (one defect repaired: protective MBR size); a sector count is scaled only by the table's own sector size; a disk GUID drawn while encoding is kept so that both header copies carry one identity (one defect repaired); partition names go through the utf16 package on both sides; the error discipline of Table.Write is shared with C09. Does not decide numeric equality of a written and re-read table, UTF-16 name handling, or CHS values.",
+         "Decides structural necessary conditions of the GPT/MBR round trip: for the GPT header, GPT entry and MBR entry every byte the parser maps to a field is written by the encoder from the same field with the same significance (and vice versa); the header CRC is computed over [0:92] after every other store into that range and stored at [16:20], the reader verifies the same range, the array CRC is computed from the array encoder's output; narrowing conversions of geometry into on-disk fields are range-tested or saturated (one defect repaired: protective MBR size); a sector count is scaled only by the table's own sector size; a disk GUID drawn while encoding is kept so that both header copies carry one identity (one defect repaired); partition names go through the utf16 package on both sides (the encoder never narrows a rune to one unit, the decoder never widens a single unit to a rune); the error discipline of Table.Write is shared with C09. Does not decide numeric equality of a written and re-read table, UTF-16 name handling, or CHS values.",
          "The extractor models constant offsets, binary.*Endian, copy, append, shifts/masks and helper inlining; bytes it cannot resolve are counted as unresolved, and each pair has a floor on agreeing bytes (exit 2 if the extractor stops understanding a pair).",
          "DESIGN.md §4 C02"),
  "C06": ("byte-layout extraction for the volume descriptors + provenance of device I/O offsets/receivers (backend.Sub wrapping)",
@@ -71,19 +71,19 @@ CLAIMS = {
          "The extended device inode pair is unresolved (floor 0) and contributes nothing.",
          "DESIGN.md §4 C07"),
  "C19": ("byte-layout extraction incl. bit masks and split fields + frame conditions (set of stored fields per mutator) + switch exhaustiveness of type tables",
-         "Decides structural necessary conditions of metadata preservation: ext4 inode (split uid/gid/size halves, seconds+extra timestamp pairs), ext4 directory entry, FAT 8.3 record (attribute/case bits with masks, date/time words, split cluster) and squashfs inode header encoders and parsers agree byte by byte; ext4 Chmod/Chown/Chtimes and the FAT attribute setters store only their own fields; the file-type-to-mode tables of ext4 and squashfs are total and every comparison of a mode with an os.Mode* type constant looks at type bits only; the packed DOS date/time words are decoded with the shifts and field widths the encoder uses. Representable ranges, the symlink inline boundary and host metadata collection are not covered.",
+         "Decides structural necessary conditions of metadata preservation: ext4 inode (split uid/gid/size halves, seconds+extra timestamp pairs), ext4 directory entry, FAT 8.3 record (attribute/case bits with masks, date/time words, split cluster) and squashfs inode header encoders and parsers agree byte by byte; ext4 Chmod/Chown/Chtimes and the FAT attribute setters store only their own fields; the file-type-to-mode tables of ext4 and squashfs are total and every comparison of a mode with an os.Mode* type constant looks at type bits only; the packed DOS date/time words are decoded with the shifts and field widths the encoder uses; the FAT attribute and case bytes can hold every combination of the caller-settable flag bits (the encoder does not set them in mutually exclusive branches). Representable ranges, the symlink inline boundary and host metadata collection are not covered.",
          "Frame conditions are over field stores reached through in-package callees up to depth 4, excluding write-back helpers.",
          "DESIGN.md §4 C19"),
  "C04": ("typestate (dirty/flush) over go/ssa CFGs with callee summaries + frame conditions (stored-field sets) + linear-form comparison of bitmap indices + nil-guard dominance + loop-coverage of block writes",
-         "Decides structural necessary conditions of the ext4 tree behaviour: stores to fields of an inode loaded from disk are followed by writeInode on every success path of Chmod/Chown/Chtimes/Truncate/Symlink/mkDirEntry/File.Write/Remove (the 'size or blocks changed' guarded flush of File.Write is recognised); Chmod/Chown/Chtimes store only their own fields; allocation and release address the same bitmap bit and group (shared with C05-c); method calls on the extent tree of an arbitrary entry's inode are nil-guarded; Remove rewrites every block of the parent directory. Two defects were repaired (Remove of an in-inode symlink panicked; stale directory blocks after Remove). Equality with a reference tree, extent mapping arithmetic, directory packing and path walking are not decided.",
+         "Decides structural necessary conditions of the ext4 tree behaviour: stores to fields of an inode loaded from disk are followed by writeInode on every success path of Chmod/Chown/Chtimes/Truncate/Symlink/mkDirEntry/File.Write/Remove (the 'size or blocks changed' guarded flush of File.Write is recognised); Chmod/Chown/Chtimes store only their own fields; allocation and release address the same bitmap bit and group (shared with C05-c); method calls on the extent tree of an arbitrary entry's inode are nil-guarded; Remove rewrites every block of the parent directory; Symlink, the inode encoder and the inode decoder split symlink lengths at the same value, 60 (shared with C05-h, C20-b). Two defects were repaired (Remove of an in-inode symlink panicked; stale directory blocks after Remove). Equality with a reference tree, extent mapping arithmetic, directory packing and path walking are not decided.",
          "One dirty bit for all inodes of a function (Symlink/mkDirEntry handle two); path-insensitive except for the listed idioms.",
          "DESIGN.md §4 C04"),
  "C05": ("typestate (dirty/flush) over go/ssa CFGs with callee summaries for group descriptors and superblock + ordering of checksum computation against stores + linear-form comparison of bitmap indices and group quotients + provenance of counter deltas + byte-layout extraction",
-         "Decides structural preconditions of e2fsck acceptance (the external checker is not run by the check): group-descriptor and superblock changes and bitmap-checksum refreshes are flushed by writeGDT/writeSuperblock before every success return of the public API; the three checksummed encoders store nothing after the checksum; every Set/Clear/IsSet on an on-disk bitmap uses ino-ipg*g-1 resp. block-(firstDataBlock+g*bpg) and group numbers are (ino-1)/ipg resp. (block-firstDataBlock)/bpg; free-block counters change by block counts, never inode.blocks; superblock, group descriptor, inode and directory-entry encoders and parsers agree byte by byte; Remove marks the removed inode deleted and writes it. Four defects in Remove/blockGroupForBlock were repaired and demonstrated with e2fsck. Layout at mkfs time (an incorrect resize-inode size with non-default BlocksPerGroup was observed and is not covered), link counts, extent-tree metadata blocks, directory packing and the state after a refused operation are not decided.",
+         "Decides structural preconditions of e2fsck acceptance (the external checker is not run by the check): group-descriptor and superblock changes and bitmap-checksum refreshes are flushed by writeGDT/writeSuperblock before every success return of the public API; the three checksummed encoders store nothing after the checksum; every Set/Clear/IsSet on an on-disk bitmap uses ino-ipg*g-1 resp. block-(firstDataBlock+g*bpg) and group numbers are (ino-1)/ipg resp. (block-firstDataBlock)/bpg; free-block counters change by block counts, never inode.blocks; superblock, group descriptor, inode and directory-entry encoders and parsers agree byte by byte; Remove marks the removed inode deleted and writes it; a per-element flush inside a loop must be the last thing that touches the descriptor in an iteration; every computation of the inode-table size in blocks rounds up. Four defects in Remove/blockGroupForBlock were repaired and demonstrated with e2fsck. Layout at mkfs time (an incorrect resize-inode size with non-default BlocksPerGroup was observed and is not covered), link counts, extent-tree metadata blocks, directory packing and the state after a refused operation are not decided.",
          "Assumes a range loop that flushes per element runs at least once when something was dirtied (collections filled alongside), that incrGD* helpers are the flush points for preceding bitmap writes, and that in-package callees that never mention io.EOF cannot return it.",
          "DESIGN.md §4 C05"),
  "C20": ("dominance of nil tests over interface method calls on the extent tree of inodes decoded from the image",
-         "Decides one structural necessary condition of 'an image using a feature the library does not support is refused or the affected file fails with an error': an inode decoded from the image has no extent tree when it maps blocks the ext2/ext3 way (mke2fs without the extent feature), is a symlink stored in the inode or a special file, and every method call on inode.extents of such an inode (readInode / inodeFromBytes results; 6 sites) is dominated by a nil test. One defect was repaired (ReadDir/ReadFile/ReadLink on an mke2fs -O ^extent image panicked). That decoded trees, contents and attributes equal what e2fsprogs wrote (hashed directories, interior extent nodes, holes, xattrs) is NOT decided: it needs the reference implementation as an oracle.",
+         "Decides one structural necessary condition of 'an image using a feature the library does not support is refused or the affected file fails with an error': an inode decoded from the image has no extent tree when it maps blocks the ext2/ext3 way (mke2fs without the extent feature), is a symlink stored in the inode or a special file, and every method call on inode.extents of such an inode (readInode / inodeFromBytes results; 6 sites) is dominated by a nil test; the decoder (and encoder and Symlink) split symlink lengths at 60, as the reference tools do, so a 60-byte target is read from its block. One defect was repaired (ReadDir/ReadFile/ReadLink on an mke2fs -O ^extent image panicked). That decoded trees, contents and attributes equal what e2fsprogs wrote (hashed directories, interior extent nodes, holes, xattrs) is NOT decided: it needs the reference implementation as an oracle.",
          "Inodes reaching a use through a parameter or a File handle are covered only at the point where they were decoded.",
          "DESIGN.md §4 C20"),
 }
